@@ -1,4 +1,4 @@
-import DcmVerif.Proofs.Time
+import DcmVerif.Proofs.TimeGeneral
 /-! Property theorems for C20_time. Statements only; proofs are by reference to `Proofs/`. -/
 set_option autoImplicit false
 
@@ -49,5 +49,21 @@ theorem tm_four_digits (a b c d : Nat) (ha : a < 10) (hb : b < 10) (hc : c < 10)
     (computed from the current source by the translator) -/
 theorem time_fns_identical : Gen.timeFnBodiesIdentical = true :=
   Tm.time_fns_identical 
+
+/-- **`hhmmss` and `hhmmss.f…` for any number of second and fraction digits:** whole seconds from
+    the two leading pairs of digits, the rest the exact decimal `digits(ss ++ ff) / 10^|ff|`
+    (with `tm_colons_ignored`, also for the colon-separated spellings) -/
+theorem tm_six_plus (h1 h2 m1 m2 : Char) (ss ff : Str)
+    (d1 : isDigit h1 = true) (d2 : isDigit h2 = true) (d3 : isDigit m1 = true) (d4 : isDigit m2 = true)
+    (hss : ∀ c ∈ ss, isDigit c = true) (hne : ss ≠ []) (hff : ∀ c ∈ ff, isDigit c = true) :
+    toSec (h1 :: h2 :: m1 :: m2 :: (ss ++ '.' :: ff)) =
+      .ok (((digitVal h1 * 10 + digitVal h2 : Nat) : Int) * 3600 +
+           ((digitVal m1 * 10 + digitVal m2 : Nat) : Int) * 60)
+          (some ⟨false, digitsVal 0 (ss ++ ff), ff.length⟩) ∧
+    toSec (h1 :: h2 :: m1 :: m2 :: ss) =
+      .ok (((digitVal h1 * 10 + digitVal h2 : Nat) : Int) * 3600 +
+           ((digitVal m1 * 10 + digitVal m2 : Nat) : Int) * 60)
+          (some ⟨false, digitsVal 0 ss, 0⟩) :=
+  Tm.six_plus h1 h2 m1 m2 ss ff d1 d2 d3 d4 hss hne hff
 
 end C20
